@@ -314,6 +314,10 @@ func ZZ_C14_Layout(sv *zzsv.T) {
 		{"x", "=", "a", "/", "2", ";", "y", "~=", "/b c/i", ";"},
 		{"foreach", "k", ",", "v", "in", "1", "..", "3", "{", "n", "++", ";", "}"},
 		{"return", "a", "?", "b", ":", "1.5", "**", "2", ";"},
+		// a value right after the filled gap (where a comment may sit), then a slash
+		{"x", "=", "1", "+", "(", "12", "/", "4", ")", ";"},
+		{"t", "(", "1", ")", ";", "a", "/=", "2", ";"},
+		{"y", "=", "[", "3", ",", "b", "]", "/", "c", ";"},
 	}
 	toks := corpus[sv.Choice("sequence", len(corpus))]
 	plain := ""
